@@ -5,6 +5,8 @@ CONSTANTS
   MaxReplies = 2
   LeakOnSendError = FALSE
   MatchCreation = TRUE
+  OtherPeer = FALSE
+  ClearOnAnyDisconnect = FALSE
   SeqCallers = TRUE
   RemoveOnTimeout = TRUE
 CHECK_DEADLOCK FALSE
